@@ -930,6 +930,24 @@ def x11_jobs(tier):
     return [cases[i::16] for i in range(16)]
 
 
+def abandoned_worker(job):
+    """checks/c09.py's explorer on the program that abandons a global request (the peer is slow to answer), seen from
+    this property: whatever the peer then does -- answer late, close, violate the protocol, vanish -- no exception
+    reaches the loop and the owner is told once that the connection ended."""
+    import c09
+    cfg, bound, prefix = job
+    acc = core.Acc()
+
+    def check(obs, ch):
+        acc.add(core.digest(('abandoned', cfg, tuple(obs['trace']))), transitions=obs['steps'])
+        for kind, detail in obs['viol']:
+            if kind in ('loop-exception', 'owner-close-count', 'livelock', 'task-pending'):
+                acc.violation('abandoned-request:%s' % kind, '%s ; schedule=%s' % (detail, ' '.join(obs['trace'])[:400]),
+                              {'kind': 'abandoned', 'cfg': list(cfg), 'choices': ch.choices})
+    core.explore_dfs(lambda ch: c09.run(cfg, ch), bound, check, root_prefix=prefix)
+    return acc
+
+
 def main(tier, seed):
     t0 = core.now()
     acc = core.Acc()
@@ -943,6 +961,7 @@ def main(tier, seed):
     acc.merge(core.pmap(amp_worker, core.rotate(amp_jobs(tier), seed)))
     acc.merge(core.pmap(reader_worker, reader_jobs()))
     acc.merge(core.pmap(x11_worker, x11_jobs(tier)))
+    acc.merge(core.pmap(abandoned_worker, [(('rfwd-timeout', 'echo'), 1 if tier == 'quick' else 2, ())]))
     sc = scp_cases()
     acc.merge(core.pmap(scp_worker, [sc[i::32] for i in range(32)]))
     n_b = acc.evaluations - n_a
@@ -971,6 +990,15 @@ def main(tier, seed):
 
 def replay(rep):
     r = rep['replay']
+    if r.get('kind') == 'abandoned':
+        import c09
+        obs = c09.run(tuple(r['cfg']), core.Chooser(r['choices']))
+        v = [x for x in obs['viol'] if x[0] in ('loop-exception', 'owner-close-count', 'livelock', 'task-pending')]
+        print(json.dumps(v, indent=1, default=repr))
+        if v:
+            print('VIOLATION property=%s replay=(given)' % PROP)
+            return 1
+        return 0
     if r.get('kind') == 'x11':
         c = r['case']
         acc = x11_worker([(c[0].encode('latin1'), c[1].encode('latin1'), bytes.fromhex(c[2]), c[3], c[4], c[5], bytes.fromhex(c[6]))])
